@@ -94,6 +94,12 @@ func (batch *Batch) close() (err error) {
 		err = nil
 	}
 
+	if batch.err == nil {
+		// The batch gives the connection back: reading from it again must
+		// not touch the connection's buffer, which is not locked anymore.
+		batch.err = io.EOF
+	}
+
 	if conn != nil {
 		conn.rdeadline.unsetConnReadDeadline()
 		conn.mutex.Lock()
